@@ -184,7 +184,7 @@ theorem newRunIdDisk_new {F : Store β} {x : Id} (hx : special x = false) (hh : 
 /-- disk `SetRunId(x)` when the directory of `x` exists: no rename, the storer switches -/
 theorem setRunId_disk_has {F : Store β} {x : Id} (hx : special x = false) (hh : F.has x = true) :
     setRunId .disk F x = { F with cur := x } := by
-  simp only [setRunId]
+  simp only [setRunId, hx, Bool.false_eq_true, if_false]
   split
   · exact newRunIdDisk_has hx hh
   · simp [hh, newRunIdDisk_has hx hh]
@@ -192,7 +192,9 @@ theorem setRunId_disk_has {F : Store β} {x : Id} (hx : special x = false) (hh :
 /-- disk `SetRunId(x)` when the storer has no current id -/
 theorem setRunId_disk_nocur {F : Store β} {x : Id} (hc : F.cur = "") :
     setRunId .disk F x = newRunIdDisk F x := by
-  simp [setRunId, hc]
+  by_cases hs : special x = true
+  · simp [setRunId, newRunIdDisk, hs]
+  · simp [setRunId, hc, hs]
 
 theorem delRunId_disk_has {F : Store β} {x : Id} (hx : special x = false) (hh : F.has x = true) :
     delRunId .disk F x = { cur := "", dirs := dropKey F.dirs x } := by
@@ -343,15 +345,29 @@ theorem pay_conts (o : Int) (cs : List (List β)) : pay (conts o cs) = cs.flatte
 theorem pay_append (a b : List (Msg β)) : pay (a ++ b) = pay a ++ pay b := by
   simp [pay]
 
-/-- what may follow the chunks of a transfer: nothing, or the `FAULT` of a stopped leader -/
-def Tail (tl : List (Msg β)) : Prop := tl = [] ∨ tl = [ctl .fault]
+/-- what may follow the chunks of a transfer: nothing, the `FAULT` of a stopped leader, or the
+    `ERROR` of a leader whose channel was relabelled under the open reader -/
+def Tail (tl : List (Msg β)) : Prop := tl = [] ∨ tl = [ctl .fault] ∨ tl = [ctl .error]
 
 theorem pay_tail {tl : List (Msg β)} (h : Tail tl) : pay tl = [] := by
-  rcases h with rfl | rfl <;> simp [pay, payload, ctl]
+  rcases h with rfl | rfl | rfl <;> simp [pay, payload, ctl]
 
 theorem pay_conts_tail (o : Int) (cs : List (List β)) {tl : List (Msg β)} (h : Tail tl) :
     pay (conts o cs ++ tl) = cs.flatten := by
   rw [pay_append, pay_conts, pay_tail h, List.append_nil]
+
+/-- what a writer gets onto its file is a prefix (`take`) of what it was handed -/
+theorem Loss.written_take (l : Loss) (p : List β) (a : Nat) :
+    ∃ n, (l.written (p.take a)).1 = p.take n := by
+  unfold Loss.written
+  cases l.wfault with
+  | none => exact ⟨a, rfl⟩
+  | some K => exact ⟨min K a, by simp [List.take_take]⟩
+
+theorem Loss.written_none {l : Loss} (h : l.wfault = none) (p : List β) : l.written p = (p, false) := by
+  simp [Loss.written, h]
+
+@[simp] theorem Loss.written_zero (p : List β) : (0 : Loss).written p = (p, false) := rfl
 
 theorem aofLoop_prefix (fin : Fin) (n : Nat) (ms : List (Msg β)) :
     (aofLoop fin n ms).2.1 <+: pay ms := by
@@ -429,10 +445,11 @@ inductive Shape (h : Hist β) (c : Id) (rid : Id) : List (Msg β) → Prop
       (hs : s = h.snap rid base) (hb : cs.flatten <+: s) (htl : Tail tl) :
       Shape h c rid (⟨.info, "", false, base, s.length, []⟩ :: (conts off cs ++ tl))
 
-theorem tail_if (fault : Bool) : Tail (if fault then [ctl .fault] else ([] : List (Msg β))) := by
-  cases fault
+theorem tail_if (e : HaltEnd) : Tail (e.msgs : List (Msg β)) := by
+  cases e
   · exact Or.inl rfl
-  · exact Or.inr rfl
+  · exact Or.inr (Or.inl rfl)
+  · exact Or.inr (Or.inr rfl)
 
 theorem flatten_take_prefix (cs : List (List β)) (k : Nat) : (cs.take k).flatten <+: cs.flatten := by
   conv => rhs; rw [← List.take_append_drop k cs]
@@ -470,10 +487,10 @@ theorem sendData_shape (h : Hist β) (c : Id) (L : Leader β) (hL : L.Faithful h
         split
         · have := Shape.aof (h := h) (c := c) (rid := rid) off _ [] _ (by omega) hall (Or.inl rfl)
           simpa using this
-        · next k fault _ =>
+        · next k e _ =>
           have hpre := flatten_take_prefix (chop ch (d.bytes.drop (off - (d.base : Int)).toNat ++ L.tail)).1 k
           rw [hall] at hpre
-          exact .aof off _ _ _ (by omega) (hseg_prefix h rid _ _ _ hpre) (tail_if fault)
+          exact .aof off _ _ _ (by omega) (hseg_prefix h rid _ _ _ hpre) (tail_if e)
     · split
       · exact .ctl _ (Or.inr (Or.inl rfl))
       · next s hs =>
@@ -487,10 +504,10 @@ theorem sendData_shape (h : Hist β) (c : Id) (L : Leader β) (hL : L.Faithful h
             · have := Shape.rdb (h := h) (c := c) (rid := rid) off d.base s (chop ch s).1 [] hsn
                 (by rw [chop_flatten]; exact List.prefix_refl _) (Or.inl rfl)
               simpa using this
-            · next k fault _ =>
+            · next k e _ =>
               have hpre := flatten_take_prefix (chop ch s).1 k
               rw [chop_flatten] at hpre
-              exact .rdb off d.base s _ _ hsn hpre (tail_if fault)
+              exact .rdb off d.base s _ _ hsn hpre (tail_if e)
         · exact .ctl _ (Or.inr (Or.inl rfl))
 
 theorem handle_shape (h : Hist β) (v : View β) (hL : v.l4.Faithful h) (rid : Id) (roff : Int)
@@ -728,7 +745,7 @@ theorem startPoint_at_id (bk : Backend) (F : Store β) (x : Id) (hx1 : x ≠ "")
 @[simp] theorem Out.pre_store (ms : List (Msg β)) (o : Out β) : (Out.pre ms o).store = o.store := rfl
 
 theorem aofRecv_ok {h : Hist β} (bk : Backend) (F1 : Store β) (x : Id) (ms : List (Msg β))
-    (fin : Fin) (budget lost : Nat) (id : Id) (hx1 : x ≠ "") (hx2 : x ≠ "?") (hat : At bk F1 x)
+    (fin : Fin) (budget : Nat) (lost : Loss) (id : Id) (hx1 : x ≠ "") (hx2 : x ≠ "?") (hat : At bk F1 x)
     (off : Int) (cs : List (List β)) (tl : List (Msg β)) (k : Nat) (hms : ms = conts off cs ++ tl)
     (htl : Tail tl) (hb : cs.flatten = hseg h x off.toNat k) (hf : FaithfulAt h F1.dirs id) :
     WF bk (aofRecv F1 off.toNat ms fin budget lost).store ∧
@@ -747,11 +764,13 @@ theorem aofRecv_ok {h : Hist β} (bk : Backend) (F1 : Store β) (x : Id) (ms : L
   split
   · exact ⟨hat.wf hx1 hx2, hf⟩
   · next F2 hw =>
-    have := aofWrite_ok bk F1 x off.toNat _ id hat (hp _) hf F2 hw
+    obtain ⟨n, hn⟩ := lost.written_take (aofLoop fin budget ms).2.1 ((aofLoop fin budget ms).2.1.length - lost.pipe)
+    rw [hn] at hw
+    have := aofWrite_ok bk F1 x off.toNat _ id hat (hp n) hf F2 hw
     exact ⟨this.1.wf hx1 hx2, this.2⟩
 
 theorem aofSync_ok {h : Hist β} (bk : Backend) (F : Store β) (x : Id) (ms : List (Msg β))
-    (fin : Fin) (budget lost : Nat) (id : Id) (hx1 : x ≠ "") (hx2 : x ≠ "?") (hat : At bk F x)
+    (fin : Fin) (budget : Nat) (lost : Loss) (id : Id) (hx1 : x ≠ "") (hx2 : x ≠ "?") (hat : At bk F x)
     (off : Int) (cs : List (List β)) (tl : List (Msg β)) (k : Nat) (hms : ms = conts off cs ++ tl)
     (htl : Tail tl) (hb : cs.flatten = hseg h x off.toNat k) (hf : FaithfulAt h F.dirs id) :
     WF bk (aofSync bk F x ⟨.info, "", true, off, -1, []⟩ ms fin budget lost).store ∧
@@ -763,7 +782,7 @@ theorem aofSync_ok {h : Hist β} (bk : Backend) (F : Store β) (x : Id) (ms : Li
     exact aofRecv_ok bk _ x ms fin budget lost id hx1 hx2 this.1 off cs tl k hms htl hb (hf.of_sub this.2.1)
   · exact aofRecv_ok bk _ x ms fin budget lost id hx1 hx2 hat off cs tl k hms htl hb hf
 
-theorem syncLoop_ok {h : Hist β} (bk : Backend) (V : Nat → View β) (lost : Nat) (x : Id) (id : Id)
+theorem syncLoop_ok {h : Hist β} (bk : Backend) (V : Nat → View β) (lost : Loss) (x : Id) (id : Id)
     (hx1 : x ≠ "") (hx2 : x ≠ "?") (hL : ∀ n, (V n).l4.Faithful h) :
     ∀ (fuel n budget : Nat) (ch : List Nat) (F : Store β) (fsp : Id × Int), At bk F x → fsp.1 = x →
       FaithfulAt h F.dirs id →
@@ -833,12 +852,17 @@ theorem syncLoop_ok {h : Hist β} (bk : Backend) (V : Nat → View β) (lost : N
         obtain ⟨hat1, hsub1, _⟩ := hr
         have hf1 : FaithfulAt h F1.dirs id := hf.of_sub hsub1
         simp only [Int.toNat_natCast]
-        split
-        · -- interrupted: no snapshot is kept
+        have hnone : WF bk (F1.setCur none) ∧ FaithfulAt h (F1.setCur none).dirs id := by
           have hat2 := setCur_at bk F1 x none hat1
           refine ⟨hat2.wf hx1 hx2, setCur_faithful _ _ _ ?_ hf1⟩
           intro _ d hd; cases hd
+        split
+        · -- interrupted: no snapshot is kept
+          exact hnone
         · next hcomp =>
+          split
+          · -- received, but a write failed: no snapshot is kept
+            exact hnone
           simp only [Out.pre_store]
           have hall := rdbLoop_complete_eq fin b (conts off cs ++ tl) s
             (by rw [pay_conts_tail _ _ htl]; exact hb) hcomp
@@ -861,7 +885,7 @@ theorem syncLoop_ok {h : Hist β} (bk : Backend) (V : Nat → View β) (lost : N
           exact ih _ _ _ F2 _ hat2 hid2 hf2
 
 theorem session_ok {h : Hist β} (bk : Backend) (V : Nat → View β) (F : Store β) (ch : List Nat)
-    (cut lost fuel : Nat) (id : Id) (hL : ∀ n, (V n).l4.Faithful h) (hq : (V 0).l2b.cur ≠ "?")
+    (cut : Nat) (lost : Loss) (fuel : Nat) (id : Id) (hL : ∀ n, (V n).l4.Faithful h) (hq : (V 0).l2b.cur ≠ "?")
     (hwf : WF bk F) (hf : FaithfulAt h F.dirs id) :
     WF bk (sessionV bk V F ch cut lost fuel).store ∧
       FaithfulAt h (sessionV bk V F ch cut lost fuel).store.dirs id := by
@@ -1006,7 +1030,7 @@ theorem startPoint_at_off (bk : Backend) (F : Store β) (x : Id) (hx1 : x ≠ ""
     simp only [startPoint, hsp, hc, Bool.not_false, Bool.true_and, decide_true, if_true, hd, latest]
 
 theorem aofSync_nodiscont (bk : Backend) (F : Store β) (x : Id) (m : Msg β) (ms : List (Msg β))
-    (fin : Fin) (budget lost : Nat) (hx1 : x ≠ "") (hx2 : x ≠ "?") (hat : At bk F x)
+    (fin : Fin) (budget : Nat) (lost : Loss) (hx1 : x ≠ "") (hx2 : x ≠ "?") (hat : At bk F x)
     (hpos : ∀ d, F.curData = some d → (d.right : Int) ≤ m.offset) :
     (aofSync bk F x m ms fin budget lost).cls ≠ .discont := by
   simp only [aofSync]
@@ -1026,7 +1050,9 @@ theorem aofSync_nodiscont (bk : Backend) (F : Store β) (x : Id) (m : Msg β) (m
         have := h1 d hd
         rw [if_pos (by omega)] at hw
         cases hw
-    · exact aofLoop_cls _ _ _
+    · split
+      · simp
+      · exact aofLoop_cls _ _ _
   cases hcd : F.curData with
   | none =>
     split
@@ -1051,7 +1077,7 @@ theorem aofSync_nodiscont (bk : Backend) (F : Store β) (x : Id) (m : Msg β) (m
       rw [hcd] at hd'; cases hd'
       omega
 
-theorem syncLoop_nodiscont (bk : Backend) (V : Nat → View β) (lost : Nat) (x : Id)
+theorem syncLoop_nodiscont (bk : Backend) (V : Nat → View β) (lost : Loss) (x : Id)
     (hx1 : x ≠ "") (hx2 : x ≠ "?") :
     ∀ (fuel n budget : Nat) (ch : List Nat) (F : Store β) (fsp : Id × Int), At bk F x → fsp.1 = x →
       Pos F fsp → (syncLoopV bk V lost x fuel n budget ch F fsp).cls ≠ .discont := by
@@ -1088,8 +1114,14 @@ theorem syncLoop_nodiscont (bk : Backend) (V : Nat → View β) (lost : Nat) (x 
               have hr := reset_at bk F x hx1 hx2 hat
               generalize setRunId bk (delRunId bk F x) x = F1 at hr ⊢
               split
-              · next c hc => exact rdbLoop_cls _ _ _ _ c hc
-              · have hat2 := setCur_at bk F1 x (some ⟨m.offset.toNat, [], some ((rdbLoop fin b m.size.toNat ms).2.1.take m.size.toNat)⟩) hr.1
+              · next c hc =>
+                simp only
+                split
+                · simp
+                · exact rdbLoop_cls _ _ _ _ c hc
+              · split
+                · simp
+                have hat2 := setCur_at bk F1 x (some ⟨m.offset.toNat, [], some ((rdbLoop fin b m.size.toNat ms).2.1.take m.size.toNat)⟩) hr.1
                 have hcd := setCur_curData F1 (some ⟨m.offset.toNat, [], some ((rdbLoop fin b m.size.toNat ms).2.1.take m.size.toNat)⟩)
                 generalize F1.setCur (some ⟨m.offset.toNat, [], some ((rdbLoop fin b m.size.toNat ms).2.1.take m.size.toNat)⟩) = F2 at hat2 hcd ⊢
                 have hoff := startPoint_at_off bk F2 x hx1 hx2 hat2 _ hcd
@@ -1302,7 +1334,7 @@ theorem handle_hello_id (v : View β) (roff : Int) (ch : List Nat) (m : Msg β) 
           rw [← hms.1]; exact Or.inl rfl
 
 theorem session_nodiscont (bk : Backend) (V : Nat → View β) (F : Store β) (ch : List Nat)
-    (cut lost fuel : Nat) (hq : (V 0).l2b.cur ≠ "?") (hwf : WF bk F) :
+    (cut : Nat) (lost : Loss) (fuel : Nat) (hq : (V 0).l2b.cur ≠ "?") (hwf : WF bk F) :
     (sessionV bk V F ch cut lost fuel).cls ≠ .discont := by
   unfold sessionV
   have hh := handle_hello_id (V 0) 0 ch
@@ -1384,7 +1416,7 @@ theorem ksub_delRunId (bk : Backend) (F : Store β) (x y : Id) : KSub x (delRunI
     · exact KSub.refl _ _
     · intro p hp; cases hp
 
-theorem ksub_aofRecv (F1 : Store β) (left : Nat) (ms : List (Msg β)) (fin : Fin) (budget lost : Nat) :
+theorem ksub_aofRecv (F1 : Store β) (left : Nat) (ms : List (Msg β)) (fin : Fin) (budget : Nat) (lost : Loss) :
     KSub F1.cur (aofRecv F1 left ms fin budget lost).store.dirs F1.dirs := by
   unfold aofRecv
   simp only
@@ -1401,7 +1433,7 @@ theorem ksub_aofRecv (F1 : Store β) (left : Nat) (ms : List (Msg β)) (fin : Fi
       · cases hw
 
 theorem ksub_aofSync (bk : Backend) (F : Store β) (x : Id) (m : Msg β) (ms : List (Msg β))
-    (fin : Fin) (budget lost : Nat) (hx1 : x ≠ "") (hx2 : x ≠ "?") (hat : At bk F x) :
+    (fin : Fin) (budget : Nat) (lost : Loss) (hx1 : x ≠ "") (hx2 : x ≠ "?") (hat : At bk F x) :
     KSub x (aofSync bk F x m ms fin budget lost).store.dirs F.dirs := by
   simp only [aofSync]
   rw [startPoint_at bk F x hx1 hx2 hat]
@@ -1414,7 +1446,7 @@ theorem ksub_aofSync (bk : Backend) (F : Store β) (x : Id) (m : Msg β) (ms : L
     rw [hat.1] at this
     exact this
 
-theorem syncLoop_ksub (bk : Backend) (V : Nat → View β) (lost : Nat) (x : Id)
+theorem syncLoop_ksub (bk : Backend) (V : Nat → View β) (lost : Loss) (x : Id)
     (hx1 : x ≠ "") (hx2 : x ≠ "?") :
     ∀ (fuel n budget : Nat) (ch : List Nat) (F : Store β) (fsp : Id × Int), At bk F x → fsp.1 = x →
       KSub x (syncLoopV bk V lost x fuel n budget ch F fsp).store.dirs F.dirs := by
@@ -1444,11 +1476,15 @@ theorem syncLoop_ksub (bk : Backend) (V : Nat → View β) (lost : Nat) (x : Id)
               have hr := reset_at bk F x hx1 hx2 hat
               have hk := ksub_reset bk F x hx1 hx2 hat
               generalize setRunId bk (delRunId bk F x) x = F1 at hr hk ⊢
-              split
-              · have := ksub_setCur F1 none
+              have hnone : KSub x (F1.setCur none).dirs F.dirs := by
+                have := ksub_setCur F1 none
                 rw [hr.1.1] at this
                 exact this.trans hk
-              · simp only [Out.pre_store]
+              split
+              · exact hnone
+              · split
+                · exact hnone
+                simp only [Out.pre_store]
                 have hat2 := setCur_at bk F1 x (some ⟨m.offset.toNat, [], some ((rdbLoop fin b m.size.toNat ms).2.1.take m.size.toNat)⟩) hr.1
                 have hcd := setCur_curData F1 (some ⟨m.offset.toNat, [], some ((rdbLoop fin b m.size.toNat ms).2.1.take m.size.toNat)⟩)
                 have hk2 := ksub_setCur F1 (some ⟨m.offset.toNat, [], some ((rdbLoop fin b m.size.toNat ms).2.1.take m.size.toNat)⟩)
@@ -1525,7 +1561,7 @@ theorem preSync_ksub (bk : Backend) (F : Store β) (x : Id) (loff : Int) (hx1 : 
 /-- a session never creates or changes a directory other than the one of the id the
     leader announced in its handshake -/
 theorem session_ksub (bk : Backend) (V : Nat → View β) (F : Store β) (ch : List Nat)
-    (cut lost fuel : Nat) (hq : (V 0).l2b.cur ≠ "?") (hwf : WF bk F) :
+    (cut : Nat) (lost : Loss) (fuel : Nat) (hq : (V 0).l2b.cur ≠ "?") (hwf : WF bk F) :
     KSub (V 0).l2b.cur (sessionV bk V F ch cut lost fuel).store.dirs F.dirs := by
   unfold sessionV
   have hh := handle_hello_id (V 0) 0 ch
@@ -1643,7 +1679,7 @@ theorem handover_static {L : Leader β} {x : Id} (hs : Serves L x) (hx1 : x ≠ 
   simp [View.handle, View.const, hs.gate, hs.started, hi, hs.cur, this, hgt']
 
 theorem session_static {L : Leader β} {x : Id} (hs : Serves L x) (hx1 : x ≠ "") (bk : Backend)
-    (F : Store β) (ch : List Nat) (c lost fuel : Nat) :
+    (F : Store β) (ch : List Nat) (c : Nat) (lost : Loss) (fuel : Nat) :
     session bk L F ch (c + 1) lost fuel =
       Out.pre [⟨.info, x, false, latest L.data, 0, []⟩]
         (syncLoopV bk (fun _ => View.const L) lost x fuel 1 c ch
@@ -1663,13 +1699,13 @@ theorem sendData_newest {L : Leader β} {x : Id} (hc : L.cur = x) (d : Data β) 
   · exact ⟨_, _, _, rfl⟩
 
 /-- whatever the receive half stores on an empty cache starts at the announced offset -/
-theorem aofRecv_fresh (F1 : Store β) (left : Nat) (ms : List (Msg β)) (fin : Fin) (budget lost : Nat)
+theorem aofRecv_fresh (F1 : Store β) (left : Nat) (ms : List (Msg β)) (fin : Fin) (budget : Nat) (lost : Loss)
     (he : F1.curData = none) (e' : Data β)
     (h : (aofRecv F1 left ms fin budget lost).store.curData = some e') :
     e'.base = left ∧ e'.snap = none := by
   unfold aofRecv at h
   simp only at h
-  generalize (aofLoop fin budget ms).2.1.take ((aofLoop fin budget ms).2.1.length - lost) = p at h
+  generalize (lost.written ((aofLoop fin budget ms).2.1.take ((aofLoop fin budget ms).2.1.length - lost.pipe))).1 = p at h
   unfold aofWrite at h
   rw [he] at h
   simp only at h
@@ -1684,7 +1720,7 @@ theorem aofRecv_fresh (F1 : Store β) (left : Nat) (ms : List (Msg β)) (fin : F
 /-- `aofSync` when the leader's stream starts beyond everything the follower holds (or the
     follower holds nothing): what it stores starts at the announced offset -/
 theorem aofSync_fresh (bk : Backend) (F : Store β) (x : Id) (m : Msg β) (ms : List (Msg β))
-    (fin : Fin) (budget lost : Nat) (hx1 : x ≠ "") (hx2 : x ≠ "?") (hat : At bk F x)
+    (fin : Fin) (budget : Nat) (lost : Loss) (hx1 : x ≠ "") (hx2 : x ≠ "?") (hat : At bk F x)
     (hbeyond : ∀ e, F.curData = some e → (e.right : Int) < m.offset) (e' : Data β)
     (h : (aofSync bk F x m ms fin budget lost).store.curData = some e') :
     e'.base = m.offset.toNat ∧ e'.snap = none := by
@@ -1842,7 +1878,8 @@ theorem aofRecv_all (F1 : Store β) (off : Nat) (o : Int) (cs : List (List β)) 
     ((aofRecv F1 off (conts o cs) .blocks b 0).store.curData = none → cs.flatten = []) := by
   have ha := aofLoop_conts_all b o cs hb
   unfold aofRecv
-  simp only [ha.1, ha.2, Nat.sub_zero, List.take_length]
+  simp only [ha.1, ha.2, Loss.zero_pipe, Loss.written_zero, Nat.sub_zero, List.take_length,
+    Bool.false_eq_true, if_false]
   unfold aofWrite
   cases hcd : F1.curData with
   | none =>
@@ -2016,7 +2053,7 @@ theorem syncLoop_reach (bk : Backend) (L : Leader β) (x : Id) (d : Data β) (hs
     have hb1 : cs.length ≤ b := by
       rw [hsnap] at hb; simp only [Option.getD_some] at hb; omega
     rw [hsl, rdbLoop_conts_all .eof b roff cs hb1 hne]
-    simp only [List.take_length, conts_length]
+    simp only [List.take_length, conts_length, Loss.written_zero, Bool.false_eq_true, if_false]
     have hr := reset_at bk G x hx1 hx2 hat
     generalize setRunId bk (delRunId bk G x) x = F1 at hr
     have hat2 := setCur_at bk F1 x (some ⟨d.base, [], some cs.flatten⟩) hr.1
@@ -2120,14 +2157,13 @@ theorem conts_code (o : Int) (cs : List (List β)) : ∀ m ∈ conts o cs, m.cod
 
 theorem sendData_no_handover (L : Leader β) (rid : Id) (off : Int) (ch : List Nat) :
     ∀ m ∈ (L.sendData rid off ch).msgs, m.code ≠ .handover := by
-  have hc : ∀ (o : Int) (cs : List (List β)) (fault : Bool) (m : Msg β),
-      m ∈ conts o cs ++ (if fault then [ctl .fault] else []) → m.code ≠ .handover := by
-    intro o cs fault m hm
+  have hc : ∀ (o : Int) (cs : List (List β)) (e : HaltEnd) (m : Msg β),
+      m ∈ conts o cs ++ (e.msgs : List (Msg β)) → m.code ≠ .handover := by
+    intro o cs e m hm
     simp only [List.mem_append] at hm
     rcases hm with hm | hm
     · rw [conts_code o cs m hm]; decide
-    · cases fault <;> simp [ctl] at hm
-      subst hm; simp
+    · cases e <;> simp [HaltEnd.msgs, ctl] at hm <;> (subst hm; simp)
   intro m hm
   unfold Leader.sendData at hm
   split at hm
